@@ -167,7 +167,7 @@ func both(fs ...func(c *Case, ps []*Probe) []string) func(c *Case, ps []*Probe) 
 // (variant 0), with redundant parentheses (1), with whitespace variants (2, 3), each with its oracle tree.
 func genTrees(rng *gen.Rng, count, depth int, emit func(Case)) {
 	for i := 0; i < count; i++ {
-		t := gen.RandomTree(rng, 1+rng.Intn(depth)).StripJux()
+		t := gen.RandomTreeTop(rng, 1+rng.Intn(depth)).StripJux()
 		want := "ok:" + impl.CanonExpr(oracle.Build(t))
 		variant := t
 		mode := 0
@@ -190,7 +190,7 @@ func genTrees(rng *gen.Rng, count, depth int, emit func(Case)) {
 func genJuxPairs(rng *gen.Rng, count, depth int, emit func(Case)) {
 	n := 0
 	for i := 0; n < count && i < count*20; i++ {
-		t := gen.RandomTree(rng, 1+rng.Intn(depth))
+		t := gen.RandomTreeTop(rng, 1+rng.Intn(depth))
 		if !t.HasJux() {
 			continue
 		}
@@ -304,7 +304,7 @@ func genLayoutPairs(rng *gen.Rng, seqLen, seqSample, trees int, emit func(Case))
 		seq(parts)
 	}
 	for i := 0; i < trees; i++ {
-		t := gen.RandomTree(rng, 1+rng.Intn(3))
+		t := gen.RandomTreeTop(rng, 1+rng.Intn(3))
 		df := ""
 		if rng.Chance(1, 4) {
 			df = "df"
@@ -410,7 +410,7 @@ func genRenderCases(rng *gen.Rng, count int, emit func(Case)) {
 			emit(Case{Gen: "G5-render", Kind: "render", S: gen.JSONExpr(rng, 1+rng.Intn(3), rng.Chance(3, 4)), Rel: desc, Aux: "json", Idx: i})
 			continue
 		}
-		t := gen.RandomTree(rng, 1+rng.Intn(4))
+		t := gen.RandomTreeTop(rng, 1+rng.Intn(4))
 		df := ""
 		if rng.Chance(1, 4) {
 			df = gen.Pick(rng, gen.DefaultFields)
@@ -551,7 +551,7 @@ func genJSONDocs(rng *gen.Rng, count int, emit func(Case)) {
 // genRoundTrips: queries (trees, token sequences, hostile values) whose encoding is decoded again.
 func genRoundTrips(rng *gen.Rng, trees, seqs int, emit func(Case)) {
 	for i := 0; i < trees; i++ {
-		t := gen.RandomTree(rng, 1+rng.Intn(4))
+		t := gen.RandomTreeTop(rng, 1+rng.Intn(4))
 		df := ""
 		if rng.Chance(1, 4) {
 			df = gen.Pick(rng, gen.DefaultFields)
@@ -863,6 +863,18 @@ func genEmbedded(rng *gen.Rng, count int, dfs []string, emit func(Case)) {
 	}
 }
 
+// clauses that start and end with a term token (juxtaposition is defined between two term tokens)
+var juxClauses = []string{"a:b", "x:5", `"q r"`, "w*", "a", "5", "1.5", "/re/", `g:"x y"`, "h:te?t", "k=v", "n:>=10", "c:d~2", "e:f^3"}
+
+// genOffPath (G6): inputs off the beaten path of the other generators (long, deep, threshold lengths, unusual Unicode
+// classes, numeric boundaries, repeated operators, three-way interactions).
+func genOffPath(rng *gen.Rng, count int, dfs []string, emit func(Case)) {
+	for i := 0; i < count; i++ {
+		s, g := gen.OffPath(rng)
+		emit(Case{Gen: g, Kind: "q", S: s, DF: gen.Pick(rng, dfs), Idx: i})
+	}
+}
+
 // genDfPairs (C11): token sequences and trees, each with a default field that does not occur in the query.
 func genDfPairs(rng *gen.Rng, seqLen, seqSample, trees int, emit func(Case)) {
 	idx := 0
@@ -881,7 +893,7 @@ func genDfPairs(rng *gen.Rng, seqLen, seqSample, trees int, emit func(Case)) {
 		emit(Case{Gen: "G1-dfpair-sampled", Kind: "dfpair", S: strings.Join(parts, " "), DF: gen.Pick(rng, dfNames), Idx: i})
 	}
 	for i := 0; i < trees; i++ {
-		t := gen.RandomTree(rng, 1+rng.Intn(4))
+		t := gen.RandomTreeTop(rng, 1+rng.Intn(4))
 		emit(Case{Gen: "G2-dfpair", Kind: "dfpair", S: gen.Spell(rng, t.Print(), rng.Intn(3)), DF: gen.Pick(rng, dfNames), Idx: i})
 	}
 }
@@ -913,10 +925,11 @@ func init() {
 		for i := 0; i < tiered(cfg, 50000, 1000000); i++ {
 			s := gen.ByteString(rng, 1+rng.Intn(10))
 			if rng.Chance(1, 3) {
-				s = gen.Mutate(rng, gen.Spell(rng, gen.RandomTree(rng, 3).Print(), rng.Intn(3)))
+				s = gen.Mutate(rng, gen.Spell(rng, gen.RandomTreeTop(rng, 3).Print(), rng.Intn(3)))
 			}
 			emit(Case{Gen: "G3-bytes", Kind: "q", S: s, DF: gen.Pick(rng, gen.DefaultFields), Idx: i})
 		}
+		genOffPath(rng, tiered(cfg, 40000, 800000), gen.DefaultFields, emit)
 		for i, s := range gen.NestedShapes() {
 			emit(Case{Gen: "G3-nested", Kind: "q", S: s, Idx: i})
 			emit(Case{Gen: "G3-nested", Kind: "q", S: s, DF: "df", Idx: i})
@@ -947,6 +960,7 @@ func init() {
 			}
 			emit(Case{Gen: "G3-bytes", Kind: "lex", S: s, Idx: i})
 		}
+		genOffPath(rng, tiered(cfg, 40000, 800000), []string{""}, asKind("lex", emit))
 	}})
 	add(&Property{ID: "C10", Fields: fields("P", "PG", "PP"), Spec: specC10, Generate: func(cfg RunConfig, emit func(Case)) {
 		rng := gen.NewRng(cfg.Seed, 10)
@@ -962,6 +976,7 @@ func init() {
 			e(Case{Gen: "G3-bytes", Kind: "q", S: s, DF: gen.Pick(rng, gen.DefaultFields), Idx: i})
 		}
 		genEmbedded(rng, tiered(cfg, 60000, 1500000), gen.DefaultFields, e)
+		genOffPath(rng, tiered(cfg, 30000, 600000), gen.DefaultFields, e)
 	}})
 	add(&Property{ID: "C02", Fields: fields("P", "PG", "PP"), Spec: specFromProbes(""), Generate: func(cfg RunConfig, emit func(Case)) {
 		rng := gen.NewRng(cfg.Seed, 2)
@@ -971,6 +986,7 @@ func init() {
 			conf(Case{Gen: "G4-fieldquery", Kind: "q", S: gen.FieldQuery(rng), DF: gen.Pick(rng, gen.DefaultFields), Idx: i})
 		}
 		genFilters(rng, "conf", tiered(cfg, 30000, 500000), emit)
+		genOffPath(rng, tiered(cfg, 30000, 600000), gen.DefaultFields, conf)
 		genTokenSeqs(tiered(cfg, 3, 4), []string{"", "df"}, conf)
 		for i := 0; i < tiered(cfg, 20000, 400000); i++ {
 			s := gen.Mutate(rng, gen.FieldQuery(rng))
@@ -989,6 +1005,7 @@ func init() {
 		for i := 0; i < tiered(cfg, 40000, 800000); i++ {
 			par(Case{Gen: "G4-fieldquery", Kind: "q", S: gen.FieldQuery(rng), DF: gen.Pick(rng, gen.DefaultFields), Idx: i})
 		}
+		genOffPath(rng, tiered(cfg, 30000, 600000), gen.DefaultFields, par)
 		for i := 0; i < tiered(cfg, 30000, 500000); i++ {
 			f := gen.RandomFilter(rng, 1+rng.Intn(3), false)
 			g := sameKindValues(rng, f.T)
@@ -1003,6 +1020,7 @@ func init() {
 	add(&Property{ID: "C11", Fields: fields("P"), Spec: specC11, Generate: func(cfg RunConfig, emit func(Case)) {
 		rng := gen.NewRng(cfg.Seed, 11)
 		genDfPairs(rng, tiered(cfg, 3, 4), tiered(cfg, 60000, 1500000), tiered(cfg, 80000, 1500000), emit)
+		genOffPath(rng, tiered(cfg, 30000, 600000), dfNames, asKind("dfpair", emit))
 	}})
 	add(&Property{ID: "C14", Fields: fields("P", "S", "G", "PG", "PP", "J"), Spec: noSpec, Generate: func(cfg RunConfig, emit func(Case)) {
 		// the sequential baseline of the session check is what is tied to the model here
@@ -1011,6 +1029,7 @@ func init() {
 		for i := 0; i < tiered(cfg, 20000, 300000); i++ {
 			emit(Case{Gen: "G4-fieldquery", Kind: "q", S: gen.FieldQuery(rng), DF: gen.Pick(rng, []string{"", "df"}), Idx: i})
 		}
+		genOffPath(rng, tiered(cfg, 15000, 300000), []string{"", "df"}, emit)
 	}})
 	add(&Property{ID: "C13", Fields: fields("U", "V", "S", "G", "J", "R", "RP"), Spec: specC13, Generate: func(cfg RunConfig, emit func(Case)) {
 		rng := gen.NewRng(cfg.Seed, 13)
@@ -1019,6 +1038,13 @@ func init() {
 	add(&Property{ID: "C12", Fields: fields("J", "U", "V", "S", "G", "R", "RP", "P"), Spec: specC12, Generate: func(cfg RunConfig, emit func(Case)) {
 		rng := gen.NewRng(cfg.Seed, 12)
 		genRoundTrips(rng, tiered(cfg, 80000, 1500000), tiered(cfg, 60000, 1000000), emit)
+		// the decoder (and its model) is quadratic in nesting depth × text length: the quick tier keeps the shorter G6 inputs
+		rt := asKind("rt", emit)
+		genOffPath(rng, tiered(cfg, 30000, 300000), gen.DefaultFields, func(c Case) {
+			if len(c.S) <= tiered(cfg, 400, 20000) {
+				rt(c)
+			}
+		})
 	}})
 	add(&Property{ID: "C15", Fields: fields("R"), Spec: specC15, Generate: func(cfg RunConfig, emit func(Case)) {
 		rng := gen.NewRng(cfg.Seed, 15)
@@ -1040,11 +1066,37 @@ func init() {
 			der(Case{Gen: "G4-fieldquery", Kind: "q", S: gen.FieldQuery(rng), DF: gen.Pick(rng, []string{"", "", "df"}), Idx: i})
 		}
 		genEmbedded(rng, tiered(cfg, 40000, 1000000), []string{"", "", "df"}, der)
+		genOffPath(rng, tiered(cfg, 30000, 600000), []string{"", "", "df"}, der)
 	}})
 	add(&Property{ID: "C07", Fields: fields("P"), Spec: specPair, Generate: func(cfg RunConfig, emit func(Case)) {
 		rng := gen.NewRng(cfg.Seed, 7)
 		genSeqJuxPairs(rng, tiered(cfg, 4, 5), tiered(cfg, 100000, 2000000), []string{"", "df"}, emit)
 		genJuxPairs(rng, tiered(cfg, 60000, 1500000), 4, emit)
+		// long flat queries: every juxtaposition written as a space vs written as AND
+		for i := 0; i < tiered(cfg, 20000, 400000); i++ {
+			k := gen.Pick(rng, []int{5, 8, 9, 13, 16, 17, 32, 33, 64, 65, 100})
+			var a, b strings.Builder
+			for j := 0; j < k; j++ {
+				if j > 0 {
+					switch rng.Intn(4) {
+					case 0:
+						a.WriteString(" OR ")
+						b.WriteString(" OR ")
+					case 1:
+						a.WriteString(" AND ")
+						b.WriteString(" AND ")
+					default:
+						a.WriteString(" ")
+						b.WriteString(" AND ")
+					}
+				}
+				cl := gen.Pick(rng, juxClauses)
+				a.WriteString(cl)
+				b.WriteString(cl)
+			}
+			df := gen.Pick(rng, []string{"", "df"})
+			emit(Case{Gen: "G6-longjux", Kind: "pair", Rel: "same", S: a.String(), S2: b.String(), DF: df, DF2: df, Idx: i})
+		}
 	}})
 	add(&Property{ID: "C09", Fields: fields("P"), Spec: specPair, Generate: func(cfg RunConfig, emit func(Case)) {
 		rng := gen.NewRng(cfg.Seed, 9)
